@@ -24,7 +24,7 @@ import re
 import featlib
 from featlib import Check, render, rel
 import mgfacts
-from mgfacts import strip, walk, regex_nfa, cfg_nfa, lang_diff, FnView
+from mgfacts import strip, walk, kids, regex_nfa, cfg_nfa, lang_diff, FnView
 import mgmodel
 from mgmodel import MGView, classify, args_by_name, neg_of, is_one
 import mgflow
@@ -1591,6 +1591,8 @@ def check_transfer_chain(ck, tier, used_methods):
         for f in facts.functions:
             if f.tk != "pattern" and f.cls == cls:
                 fns.setdefault(f.name, []).append(f)
+        if not any(fns.get(m) for m in used_methods if m in TRANSFER_BASE):
+            continue        # only implicitly instantiated (source type of a convert()): none of the cycle's methods exists here
         for m in sorted(used_methods):
             if m not in TRANSFER_BASE:
                 continue
@@ -1628,6 +1630,7 @@ def check_transfer_chain(ck, tier, used_methods):
             else:
                 ck.incomplete(rule, "%s: neither a call of the wrapped transfer nor an application of a matrix member found" % key)
         check_transfer_clone(ck, short, fns, inl)
+        check_transfer_memberwise(ck, short, fns, inl)
         if cls.startswith("FEAT::Global::Transfer<"):
             check_transfer_buffer(ck, short, fns, inl, used_methods)
 
@@ -1664,6 +1667,82 @@ def check_transfer_clone(ck, short, fns, inl):
                   "%s.clone(%s) receives the requested clone mode" % (mem, f.params[0]["n"]) if passes else
                   "%s is cloned with %s instead of the requested mode `%s`, while its siblings honour the mode: a %s clone of the operator shares / copies this matrix differently from the others (after an in-place re-assembly the cycle uses matrices of different generations)" % (
                       mem, ", ".join(other) or "the default mode", f.params[0]["n"], "Shallow/Deep"), f.file, n.get("l"))
+
+
+COPY_LIKE = ("convert", "operator=", "clone", "assign", "copy")
+
+
+def check_transfer_memberwise(ck, short, fns, inl):
+    """E1.transfer-clone-mode, member-wise agreement: a copy-like member (convert(other), operator=(other)) of a transfer class
+    defines each operator member from the same member of the source.  Only same-typed sibling members are compared (the
+    prolongation / restriction / truncation matrices): a member defined from a *different* sibling (`_mat_rest = _mat_prol.transpose()`,
+    `_mat_rest.convert(other.get_mat_prol())`) makes the copy differ from its source whenever the siblings are independent."""
+    rule = "E1.transfer-clone-mode"
+    for name in ("convert", "operator="):
+        for f in fns.get(name, []):
+            if f.body is None:
+                continue
+            others = {p_["d"] for p_ in f.params if TRANSFER_CLS_RE.match(re.sub(r"^const |\s*&+$", "", f.type(p_["t"])).strip())}
+            if not others:
+                continue
+            view = FnView(f)
+
+            def own_member(n):
+                n = strip(n)
+                return n.get("k") == "Member" and n.get("field") and strip(n.get("b") or {}).get("k") == "This"
+
+            def side_member(n):
+                """member name if n is <this or other>.member or a getter of it"""
+                n = strip(n)
+                if n.get("k") == "Member" and n.get("field"):
+                    b = view.value(n.get("b") or {})
+                    if b.get("k") == "This" or (b.get("k") == "Ref" and b.get("d") in others):
+                        return n.get("n")
+                if n.get("k") == "MCall" and not n.get("a"):
+                    b = view.value(n.get("obj") or {"k": "This"})
+                    if b.get("k") == "This" or (b.get("k") == "Ref" and b.get("d") in others):
+                        cal = inl.bydecl.get(n.get("cdecl"))
+                        e = norm_c08.Inliner.pure_expr(cal) if cal is not None and cal.body is not None and cal.body.get("k") == "Block" else None
+                        if e is not None and own_member(e):
+                            return strip(e).get("n")
+                        if cal is None and (n.get("n") or "").startswith("get_"):
+                            return "_" + n["n"][4:]
+                return None
+
+            def refs(e, depth=0):
+                out = set()
+                e = view.value(e)
+                m = side_member(e)
+                if m is not None:
+                    return {m}
+                for c in kids(e):
+                    out |= refs(c, depth + 1)
+                return out
+            defs = []       # (member node, source expressions, statement)
+            for n in walk(f.body):
+                k = n.get("k")
+                if k == "MCall" and n.get("n") in COPY_LIKE and n.get("obj") is not None and own_member(n["obj"]):
+                    defs.append((strip(n["obj"]), n.get("a", []), n))
+                elif k == "Assign" and n.get("op") == "=" and own_member(n["lhs"]):
+                    defs.append((strip(n["lhs"]), [n["rhs"]], n))
+                elif k == "OpCall" and n.get("op") == "=" and len(n.get("a", [])) == 2 and own_member(n["a"][0]):
+                    defs.append((strip(n["a"][0]), [n["a"][1]], n))
+            tyof = {}
+            for mem, _, _ in defs:
+                tyof[mem["n"]] = f.type(mem["t"]) if mem.get("t") is not None else None
+            for mem, srcs, st_ in defs:
+                m = mem["n"]
+                sibs = {x for x, t_ in tyof.items() if x != m and t_ is not None and t_ == tyof[m]}
+                if not sibs:
+                    continue        # no same-typed sibling: nothing to confuse it with
+                r = set()
+                for e in srcs:
+                    r |= refs(e)
+                wrong = sorted(r & sibs)
+                ck.ob(rule, "%s::%s/%s" % (short, name, m), not wrong,
+                      ("%s is defined from the sibling member %s (`%s`), not from the %s of the source: the copy differs from its source whenever the two operators are independent (restriction != transposed prolongation)" % (
+                          m, ", ".join(wrong), render(st_)[:80], m)) if wrong else "%s is defined from the same member of the source" % m,
+                      f.file, st_.get("l"))
 
 
 def check_transfer_buffer(ck, short, fns, inl, used_methods):
